@@ -82,7 +82,8 @@ func parseWriteStringArgs(
 		rest := args[1:]
 		start := 0
 		end := len(ra)
-		if w, ok = args[1].(io.Writer); ok {
+		if aw, isWriter := args[1].(io.Writer); isWriter {
+			w = aw
 			ss, _ = args[1].(slip.Stream)
 			rest = args[2:]
 		}
